@@ -136,6 +136,7 @@ class NetRun:
         self.inject_at_save = None
         self.link_fault = None
         self.link_is_down = False
+        self.fault_at_last_tick = None
         self.state_diverged = False
         self.inject_at_final_save = None
         self.pending_fault = None
@@ -196,6 +197,19 @@ class NetRun:
         sim = self.world.sim
         role = sim.current.role if sim.current is not None else "?"
         if phase == "begin":
+            if self.fault_at_last_tick is not None:
+                if role == "timer" and persistence.need_save:
+                    # the scheduled save that stop() is racing with hits a transient fault
+                    self.pending_fault, self.fault_at_last_tick = self.fault_at_last_tick, None
+                    self.fs.arm({})
+                    self.renames_seen = 0
+                    self.probe("fault_in_save_racing_with_stop")
+                elif role != "timer":
+                    self.fault_at_last_tick = None  # stop()'s own save came first: no fault (it may not fail)
+            elif self.stopping and role != "timer" and self.pending_fault is not None:
+                # the fault was armed for the scheduled save, which has not got to the faulty operation: withdrawn
+                self.pending_fault = None
+                self.fs.disarm()
             if role in ("timer", "executor") and not self.stopping:
                 self.tick_times.append(sim.now)
                 if self.pending_fault is not None and persistence.need_save:
@@ -1310,11 +1324,18 @@ class NetRun:
                     if len(op) > 1 and isinstance(op[1], dict) and op[1].get("line") and self.broker is None:
                         # ... and a line that the network delivers at the same instant (handled while the save runs)
                         self.inject_at_save = op[1]["line"].encode() + b"\n"
+                    if len(op) > 1 and isinstance(op[1], dict) and op[1].get("fault") and self.flavour in ("serial", "tcp", "mqtt"):
+                        # ... and that scheduled save fails at one of its operations (threaded flavours: the timer thread)
+                        self.fault_at_last_tick = tuple(op[1]["fault"])
                     dt = self.tick_times[-1] + 10.0 - world.sim.now
                     if dt > 0:
                         world.sim.sleep(dt)
                     self.probe("stop_at_tick")
                 self.op_restart()
+                self.fault_at_last_tick = None
+                if self.pending_fault is not None:
+                    self.pending_fault = None
+                    self.fs.disarm()
             elif kind == "adopt":
                 ids = self.model.handed_out
                 if ids:
